@@ -104,6 +104,8 @@ def parts(tier):
                                                  colo=True), quick=60, thorough=400),
         Part('jsrun_blocked_resources', schedgen.histories(max_ops=25 if not T else 50, big=T, cls='jsrun', app=False,
                                                            light=True, blocked_focus=True), quick=50, thorough=400),
+        Part('reconfig_scheduler', schedgen.histories(max_ops=25 if not T else 50, big=T, cls='reconfig', app=False,
+                                                      scattered=True, light=True), quick=50, thorough=400),
         Part('priority', prio_scenarios(), quick=120, thorough=500),
         Part('big_wait_pools', big_pools(), quick=50, thorough=400),
     ]
